@@ -31,7 +31,8 @@ def int_case(draw):
             "seed2": draw(st.integers(0, 2**31)),
             # narrow storage types: running sums leave the range of the dtype (counts, masks)
             "dtype": draw(st.sampled_from(["float", "float", "complex", "int", "uint8", "int8", "int16", "bool"])),
-            "pre": draw(st.sampled_from(["none", "none", "rot-inplace", "scale-inplace", "region-scale-inplace"])),
+            "pre": draw(st.sampled_from(["none", "none", "rot-inplace", "scale-inplace", "region-scale-inplace",
+                                         "sibling-moved", "sibling-moved"])),
             "pre_k": draw(st.sampled_from([1, 3, -1])),
             "order": list(draw(st.permutations(range(nd)))),
             "subset": [i for i in range(nd) if draw(st.booleans())],
@@ -58,7 +59,20 @@ def build(case, seedkey="seed", mesh=None, allow_pre=False):
         arr = {"uint8": np.abs(arr) * 28, "int8": arr * 14, "int16": arr * 3600, "bool": arr > 0}[case["dtype"]].astype(dt)
     f = df.Field(mesh, nvdim=case["nvdim"], value=arr, dtype=dt, unit=case["unit"], valid=gen.make_mask(case["mask"], n))
     pre = case.get("pre", "none")
-    if allow_pre and pre != "none" and mesh.region.ndim >= 2 and case["nvdim"] == 1:
+    if allow_pre and pre == "sibling-moved":
+        # other meshes made FROM this one (a translated / scaled copy, a mesh built from its region and `n`) are changed
+        # in place afterwards: this mesh, and the integrals of the field on it, stay what they were
+        m0 = f.mesh
+        sibs = [m0.translate(tuple(float(c) for c in m0.cell)), m0.scale(2.0),
+                df.Mesh(region=m0.region.translate(tuple(float(c) for c in m0.cell)), n=m0.n)]
+        for sib in sibs:
+            dims_ = sib.region.dims
+            if len(dims_) >= 2:
+                sib.rotate90(dims_[0], dims_[-1], k=case.get("pre_k", 1) | 1, inplace=True)
+            sib.translate(tuple(3.0 * float(c) for c in sib.cell), inplace=True)
+            sib.scale(0.5, inplace=True)
+        tag("pre-sibling-moved")
+    elif allow_pre and pre != "none" and mesh.region.ndim >= 2 and case["nvdim"] == 1:
         # read derived geometry first, then change the geometry in place: nothing may be remembered from before
         f.mesh.cell, f.mesh.dV, f.integrate()
         dims = f.mesh.region.dims
@@ -108,6 +122,10 @@ def reduced_mesh_ok(res_mesh, mesh, removed, sig):
     require(list(res_mesh.region.units) == [mesh.region.units[i] for i in keep], sig + "-units")
 
 
+def n_of(mesh):
+    return [int(i) for i in mesh.n]
+
+
 def check_integrals(case):
     import discretisedfield as df
 
@@ -154,6 +172,34 @@ def check_integrals(case):
         ref = cell[d] * (np.cumsum(arr, axis=d) - arr / 2)
         if not close(c.array, ref):
             raise Violation("cumulative", f"axis {d}: cumulative integral is not cell*(sum of preceding + half own)")
+        if arr.dtype.kind == "f" and case["seed"] % 3 == 0:
+            # the same statement for values the shortcut "inclusive sum minus half" cannot handle: an infinite cell (1/|x|
+            # sampled at its pole) and finite values within a factor 2 of the float64 maximum
+            ext = arr.copy()
+            line = [0] * nd
+            pos = case["seed"] // 3 % n_of(mesh)[d]
+            line[d] = pos
+            big = np.finfo(float).max / (2.5 * max(1.0, cell[d]))
+            ext[...] = np.where(ext >= 0, 0.45, -0.2) * big if case["seed"] % 2 else ext
+            ext[tuple(line)] = np.inf
+            fe = df.Field(mesh, nvdim=k, value=ext)
+            with np.errstate(all="ignore"):
+                got = fe.integrate(dims[d], cumulative=True).array
+                want = np.empty_like(ext)
+                run = np.zeros(np.delete(np.array(ext.shape), d))
+                for i in range(ext.shape[d]):
+                    v = np.take(ext, i, axis=d)
+                    sl = [slice(None)] * ext.ndim
+                    sl[d] = i
+                    want[tuple(sl)] = (run + v / 2) * cell[d]
+                    run = run + v
+            same_special = np.array_equal(np.isnan(got), np.isnan(want)) and np.array_equal(np.isposinf(got), np.isposinf(want)) \
+                and np.array_equal(np.isneginf(got), np.isneginf(want))
+            fin = np.isfinite(want)
+            if not same_special or not np.allclose(got[fin], want[fin], rtol=1e-12, atol=0):
+                raise Violation("cumulative-extreme", f"axis {d}: with an infinite cell / values near the float64 maximum the "
+                                                      f"cumulative integral is not cell*(preceding + half own)")
+            tag("cumulative-extreme")
         last = np.take(c.array, -1, axis=d) + np.take(arr, -1, axis=d) * cell[d] / 2
         if not close(last, arr.sum(axis=d) * cell[d]):
             raise Violation("cumulative-last", f"axis {d}")
